@@ -422,3 +422,28 @@ func (fc *FuncCtx) ResolveUp(e ast.Expr) ast.Expr {
 	}
 	return e
 }
+
+// fieldInits returns every expression a function gives to a struct field of that name, whether
+// as a key of a composite literal or by assignment to a selector (x.f = v, x.g.f = v): the two
+// ways of building the same value.
+func fieldInits(fc *FuncCtx, field string) []ast.Expr {
+	var out []ast.Expr
+	ast.Inspect(fc.Body, func(n ast.Node) bool {
+		switch x := n.(type) {
+		case *ast.KeyValueExpr:
+			if id, ok := x.Key.(*ast.Ident); ok && id.Name == field {
+				out = append(out, x.Value)
+			}
+		case *ast.AssignStmt:
+			if len(x.Lhs) == len(x.Rhs) {
+				for i, l := range x.Lhs {
+					if sel, ok := ast.Unparen(l).(*ast.SelectorExpr); ok && sel.Sel.Name == field {
+						out = append(out, x.Rhs[i])
+					}
+				}
+			}
+		}
+		return true
+	})
+	return out
+}
